@@ -331,6 +331,21 @@ fn run(ctx: &mut Ctx) {
             }
         }
     }
+    // other epochs: "now" just after midnight at the end of a year, just after the 32-bit time_t wrap, late on
+    // a leap day, and with a sub-second part - the simulated silences reach back across those boundaries
+    let mut ej = 20_000u64;
+    for (es, ens, _) in crate::shim::EPOCH_VARIANTS {
+        for p in param_sets().iter().filter(|p| (p.d == 1 || p.d == 5) && p.fi < 2 && !p.filter && !p.draw) {
+            ej += 1;
+            if !ctx.mine(ej) {
+                continue;
+            }
+            crate::shim::set_epoch(es, ens);
+            ctx.count("epoch-variant parameter set");
+            run_one(ctx, p, depth - 1);
+            crate::shim::reset_epoch();
+        }
+    }
     ctx.sample(|| json!({"params": "d=5 default F=DF4", "history": ["DF4(A)", "tick 4999 ms", "DF4(A)", "tick 5000 ms", "burst(B)x12"], "expected": "A present with age 0 after step 3; A absent after the burst"}));
     ctx.bound("depth", depth);
     ctx.bound("parameter sets", param_sets().len());
